@@ -73,7 +73,9 @@ def drive(draw, h, cfg):
         elif kind == 'none':
             new[n] = None
         elif kind == 'extra':
-            new['not_a_function'] = draw(version_atoms)
+            # a name that is no function of the program - also names the library uses for its own operation kinds
+            new[draw(st.sampled_from(['not_a_function', 'read', 'walk', 'list_dir', 'is_file', 'is_dir', 'exists', 'get_size',
+                                      'build_file', 'subbuild']))] = draw(version_atoms)
         elif kind == 'same':
             new = dict(reversed(list(new.items())))
         changed = sorted(x for x in names if canon(vers.get(x)) != canon(new.get(x)))
